@@ -71,6 +71,9 @@ var schema = map[int]fieldDef{
 	12: {"__bucket_+Inf", ftHistogram, 0, true},
 }
 
+// schemaOrder is the order in which the fields are registered (= field id order).
+var schemaOrder = []int{1, 2, 3, 4, 5, 6, 7, 8, 9, 10, 11, 12}
+
 var fieldByName = func() map[string]int {
 	m := map[string]int{}
 	for id, d := range schema {
@@ -320,16 +323,24 @@ type naive struct {
 	series  []seriesDef // in declaration order
 	streams map[streamKey][]point
 	fams    map[int]bool
+	// fieldSeen: fields that exist in the metric's schema, fieldOrder: in the order of their
+	// first write (= field id order)
+	fieldSeen  map[int]bool
+	fieldOrder []int
 }
 
 func newNaive(spf int) *naive {
-	return &naive{spf: spf, streams: map[streamKey][]point{}, fams: map[int]bool{}}
+	return &naive{spf: spf, streams: map[streamKey][]point{}, fams: map[int]bool{}, fieldSeen: map[int]bool{}}
 }
 
 func (n *naive) add(p point) {
 	k := streamKey{p.fam, p.ser, p.fld}
 	n.streams[k] = append(n.streams[k], p)
 	n.fams[p.fam] = true
+	if !n.fieldSeen[p.fld] {
+		n.fieldSeen[p.fld] = true
+		n.fieldOrder = append(n.fieldOrder, p.fld)
+	}
 }
 
 // cell combines, in arrival order, all values written to one slot by the field's aggregate.
